@@ -146,6 +146,10 @@ def worker(job):
                         raise
                     except Exception as ex:
                         step["res"] = type(ex).__name__
+                    # TLC integers are 32-bit: a run is recorded up to (not including) the first step after which a
+                    # number exceeds simobs.MAG in magnitude (the same bound as the observation graphs of C01-C05)
+                    if any(v["k"] == "n" and (abs(v["n"]) > simobs.MAG or v["d"] > simobs.MAG) for v in step["obs"]):
+                        break
                     rec["steps"].append(step)
         except ImplTimeout:
             rec["skip"] = "timeout"
